@@ -1,6 +1,7 @@
 import FP.Model.Parser
 import FP.Spec.GraphFile
 import FP.Proofs.Parser
+import FP.Proofs.Lexer
 /-!
 # C20 — graph files are parsed faithfully and malformed files are rejected
 
@@ -176,5 +177,86 @@ line `b c 2` cut to `b c` -/
 example : ∃ e, readGraph exO [.header "graph 1", .subpath ["a", "b", "c"], .data "3" ["3"],
     .data "a b 1" ["a", "b", "1"], .data "b c" ["b", "c"]] = .error e :=
   malformed_rejected exO _ (.badEdgeLine "b c" ["b", "c"] (by decide) (by decide))
+
+end FP.Props.C20
+
+/-!
+## Character level: the `str` primitives behind the classified lines (`FP/Model/Lexer.lean`)
+
+`Clean t`: `t` is non-empty and contains no character for which python's `str.isspace()` holds.
+`joinSp ts` = `" ".join(ts)`.  `classify : String → Line String` is the line classifier (mirror of
+`harness/props/c20.py: classify`, tied by suite `K1.lexer`).
+-/
+namespace FP.Props.C20
+open FP.Parser FP.Lexer
+
+/-- every token of `line.split()` is non-empty and contains no whitespace character -/
+theorem splitWs_tokens_clean (cs : List Char) :
+    ∀ t ∈ splitWs cs, t ≠ [] ∧ ∀ c ∈ t, isPySpace c = false := splitWs_clean cs
+
+example : splitWs "\u00a0a\x1fb\u3000 \tc#\u2028".toList = ["a".toList, "b".toList, "c#".toList] := by decide
+
+/-- `split` inverts `" ".join` on clean tokens, whatever whitespace runs surround the joined text -/
+theorem splitWs_join (ts : List (List Char)) (pre post : List Char) (h : ∀ t ∈ ts, Clean t)
+    (hpre : ∀ c ∈ pre, isPySpace c = true) (hpost : ∀ c ∈ post, isPySpace c = true) :
+    splitWs (pre ++ joinSp ts ++ post) = ts := by
+  rw [List.append_assoc, splitWs_ws_append _ _ hpre, splitWs_joinSp_ws _ h post hpost]
+
+example : splitWs ("\u3000\x1f".toList ++ joinSp ["0".toList, "1".toList, "2.5".toList] ++ "\u0085\n".toList)
+    = ["0".toList, "1".toList, "2.5".toList] := by decide
+
+theorem classify_ofList (l : List Char) : classify (String.ofList l) = mapLine String.ofList (classifyL l) := by
+  simp [classify]
+
+/-- a rendered data line (clean tokens joined by single spaces, the first token not starting with `#`, any
+whitespace before and after) lexes to exactly its tokens and its stripped text -/
+theorem classify_data_line (t : List Char) (ts : List (List Char)) (pre post : List Char)
+    (ht : Clean t) (hh : startsWith t ['#'] = false) (h : ∀ x ∈ ts, Clean x)
+    (hpre : ∀ x ∈ pre, isPySpace x = true) (hpost : ∀ x ∈ post, isPySpace x = true) :
+    classify (String.ofList (pre ++ joinSp (t :: ts) ++ post))
+      = .data (String.ofList (joinSp (t :: ts))) ((t :: ts).map String.ofList) := by
+  cases t with
+  | nil => exact absurd rfl ht.1
+  | cons c t0 =>
+    have hc : c ≠ '#' := by
+      intro e; subst e; simp [startsWith] at hh
+    rw [classify_ofList, classifyL_data c t0 ts pre post hc ht h hpre hpost]
+    rfl
+
+/-- **edge lines**: `u v w` rendered with single spaces lexes to exactly the three tokens `[u, v, w]` -/
+theorem classify_edge_line (u v w : List Char) (hu : Clean u) (hv : Clean v) (hw : Clean w)
+    (hh : startsWith u ['#'] = false) :
+    classify (String.ofList (u ++ ' ' :: (v ++ ' ' :: w)))
+      = .data (String.ofList (u ++ ' ' :: (v ++ ' ' :: w))) [String.ofList u, String.ofList v, String.ofList w] := by
+  have := classify_data_line u [v, w] [] [] hu hh
+    (by intro x hx; simp at hx; rcases hx with rfl | rfl <;> assumption) (by simp) (by simp)
+  simpa [joinSp] using this
+
+example : classify "\u2003a\x00b 𝔘1\u00a0\t\x1c2.5e3\u3000\n"
+    = .data "a\x00b 𝔘1\u00a0\t\x1c2.5e3" ["a\x00b", "𝔘1", "2.5e3"] := by decide
+
+/-- **`#S` lines**: `"#S" ++ whitespace ++ " ".join(nodes)` (any whitespace before `#` and at the end) lexes to the
+subpath line with exactly the tokens `nodes` -/
+theorem classify_subpath_line (ns : List (List Char)) (pre sp post : List Char) (h : ∀ t ∈ ns, Clean t)
+    (hpre : ∀ x ∈ pre, isPySpace x = true) (hsp : ∀ x ∈ sp, isPySpace x = true)
+    (hpost : ∀ x ∈ post, isPySpace x = true) :
+    classify (String.ofList (pre ++ '#' :: 'S' :: (sp ++ joinSp ns ++ post)))
+      = .subpath (ns.map String.ofList) := by
+  rw [classify_ofList, classifyL_subpath ns pre sp post h hpre hsp hpost]
+  rfl
+
+example : classify "\u205f#S\x1f s a\u2029t \n" = .subpath ["s", "a", "t"] := by decide
+example : classify "#Sx y" = .subpath ["x", "y"] := by decide
+example : classify "##S x" = .header "S x" := by decide
+example : classify "\t# S#\u00a0" = .header "S#" := by decide
+
+/-- a line is blank iff all its characters are python whitespace -/
+theorem classify_blank_iff (s : String) : classify s = .blank ↔ ∀ c ∈ s.toList, isPySpace c = true := by
+  rw [← classifyL_blank_iff]
+  unfold classify
+  cases classifyL s.toList <;> simp [mapLine]
+
+example : classify "\u1680\x1d\u2028\u3000\x0b" = .blank := by decide
+example : classify "\u200b" = .data "\u200b" ["\u200b"] := by decide
 
 end FP.Props.C20
